@@ -19,7 +19,7 @@ TRUSTED = ['Coq 8.16.1 kernel + vm_compute', 'harness/p02.py oracle (tableschema
 ASSUMES = ['conforming typed input', 'well-typed parameters (domain of the property)']
 
 KINDS = ['restricted_set_type', 'restricted_delete', 'restricted_rename', 'add_field', 'add_computed', 'select', 'delete', 'rename', 'find_replace', 'set_type', 'validate', 'filter', 'sort', 'dedup',
-         'unpivot', 'concat', 'duplicate', 'join', 'join_self', 'delete_res', 'update_resource', 'update_schema', 'update_package', 'row_fn']
+         'unpivot', 'concat', 'duplicate', 'join', 'join_keep', 'join_self', 'delete_res', 'update_resource', 'update_schema', 'update_package', 'row_fn']
 
 
 def base_rows(i, n):
@@ -35,6 +35,18 @@ def gen_cases(rng, tier):
         sizes = [rng.pick([0, 1, 4, 9, 120 if rng.chance(0.1) else 6]) for _ in range(rng.randint(1, 3))]
         steps = [{'t': rng.pick(KINDS), 'a': rng.randint(0, 3)} for _ in range(rng.randint(1, 6))]
         cases.append({'kind': 'pipeline', 'sizes': sizes, 'steps': steps})
+    # systematically: join that keeps its source, with every property-copying aggregate, alone and followed by an edit
+    # of the target resource only
+    for a_ in range(4):
+        cases.append({'kind': 'pipeline', 'sizes': [6, 4], 'steps': [{'t': 'join_keep', 'a': a_}]})
+        cases.append({'kind': 'pipeline', 'sizes': [6, 4], 'steps': [{'t': 'join_keep', 'a': a_}, {'t': 'restricted_set_type', 'a': a_}]})
+    # plain iterable sources longer than the inference sample whose column shows its first value late (or never):
+    # what is declared must still fit every row
+    for i in range(max(4, n // 15)):
+        cases.append({'kind': 'pipeline', 'source': 'iterable', 'sizes': [rng.pick([130, 250])], 'first_at': rng.pick([5, 100, 120, None]),
+                      'late': rng.pick(['int', 'date', 'list', 'decimal', 'str']),
+                      'steps': [{'t': rng.pick(['add_field', 'filter', 'sort', 'update_resource', 'row_fn']), 'a': rng.randint(0, 3)}
+                                for _ in range(rng.randint(0, 2))]})
     return cases
 
 
@@ -45,6 +57,8 @@ def build(case):
     # an iterable source without rows yields a resource without fields (nothing to infer from)
     res = [{'name': 'res_%d' % (i + 1), 'fields': ['id', 'grp', 'num', 'flag', 'day', 'ts', 'tags', 'meta', 'txt', 'misc']}
            for i in range(len(sizes))]
+    if case.get('source') == 'iterable':
+        res = [{'name': 'res_1', 'fields': ['id', 'grp', 'late']}]
     steps = []
     uid = [0]
 
@@ -142,6 +156,13 @@ def build(case):
                                  mode=['inner', 'half-outer', 'full-outer', 'half-outer'][a], source_delete=True))
             res[1]['fields'].append(nm)
             res.pop(0)
+        elif t == 'join_keep' and idint and len(res) >= 2 and 'grp' in res[0]['fields'] and 'grp' in res[1]['fields'] and 'id' in res[0]['fields']:
+            # the source stays in the package; the joined field gets a new name and copies the source field's properties
+            agg = ['any', 'first', 'last', 'max'][a]
+            nm = fresh('jk')
+            steps.append(DF.join(res[0]['name'], ['grp'], res[1]['name'], ['grp'], {nm: {'name': 'id', 'aggregate': agg}},
+                                 mode=['half-outer', 'inner', 'half-outer', 'full-outer'][a], source_delete=False))
+            res[1]['fields'].append(nm)
         elif t == 'join_self' and idint and 'grp' in first['fields'] and 'id' in first['fields']:
             steps.append(DF.join_with_self(first['name'], ['grp'], {'grp': None, 'n': {'aggregate': 'count'}, 'top': {'name': 'id', 'aggregate': 'max'}}))
             first['fields'] = ['grp', 'n', 'top']
@@ -163,7 +184,16 @@ TYPES = [('id', 'integer'), ('grp', 'string'), ('num', 'number'), ('flag', 'bool
          ('tags', 'array'), ('meta', 'object'), ('txt', 'string'), ('misc', 'any')]
 
 
+def iterable_rows(case):
+    n, k = case['sizes'][0], case['first_at']
+    val = {'int': lambda j: j, 'date': lambda j: datetime.date(2020, 1, 1) + datetime.timedelta(days=j), 'list': lambda j: [j],
+           'decimal': lambda j: decimal.Decimal(j) / 4, 'str': lambda j: 's%d' % j}[case['late']]
+    return [{'id': j, 'grp': 'g%d' % (j % 3), 'late': (val(j) if k is not None and j >= k else None)} for j in range(n)]
+
+
 def typed_source(case):
+    if case.get('source') == 'iterable':
+        return iterable_rows(case)
     return Src([{'name': 'res_%d' % (i + 1), 'fields': [{'name': a, 'type': b} for a, b in TYPES], 'rows': base_rows(i, n)}
                 for i, n in enumerate(case['sizes'])])
 
